@@ -121,6 +121,11 @@ def keep_separate(v):
     return r
 
 
+# functions whose bodies are far too large for the abstract scan (hundreds of precision writes): modelled as havoc stubs
+HAVOC = ('mpmath.functions.rszeta:zeta_half', 'mpmath.functions.rszeta:zeta_offline', 'mpmath.functions.rszeta:z_half',
+         'mpmath.functions.rszeta:z_offline', 'mpmath.functions.rszeta:Rzeta_set', 'mpmath.functions.rszeta:Rzeta_simul')
+
+
 def get_ctx(kind):
     import mpmath
     return {'mp': mpmath.mp, 'iv': mpmath.iv, 'fp': mpmath.fp}[kind]
@@ -157,6 +162,33 @@ def restore(p):
         heap[(id(ctx._prec), ('item', 0))] = (ctx._prec, P0)
         heap[(id(ctx), '_dps')] = (ctx, D0)
         slots = [((id(ctx._prec), ('item', 0)), P0, '_prec[0]'), ((id(ctx), '_dps'), D0, '_dps')]
+    # helpers that are too large to inline within the deadline are modelled as HAVOC stubs: they may leave the precision slots
+    # at arbitrary values and may raise (a sound over-approximation of any body); their callers must restore around them
+    def m_havoc(eng, st, args, kw, fr):
+        outs = []
+        for raises in (False, True):
+            s2 = st.fork(z3.BoolVal(True))
+            for key, want, label in slots:
+                obj = s2.heap[key][0] if key in s2.heap else None
+                if obj is None:
+                    continue
+                n0 = len(ob.assume)
+                nv = ob.int('havoc_%s_%d' % (label.strip('_[]0'), len(ob.vars)), 1, PMAX)
+                G.SIDE.extend(ob.assume[n0:])
+                eng.heap_set(s2, obj, key[1], nv)
+            b = V.fresh_bool('havoc_raises')
+            s2.pc = s2.pc + [b.t if raises else z3.Not(b.t)]
+            outs.append((s2, RAISE if raises else NORMAL, Unknown('exc' if raises else 'call')))
+        return outs
+    for hn in p.get('havoc', HAVOC if kind != 'fp' else ()):       # fp: the helpers' own `ctx.prec = ...` are no-ops, only ctx._mp matters
+        import importlib
+        try:
+            hm, hq = hn.split(':')
+            hobj = getattr(importlib.import_module(hm), hq)
+        except Exception:
+            continue
+        if p.get('writer', '').split(':')[-1] != hq and name != hq:
+            ob.eng.models[hobj] = m_havoc
     if p.get('writer'):
         # a precision-writing helper that is not a public entry point (module-level function or private method taking the
         # context as its first parameter): entered directly, so that the induction 'every function that writes the precision
@@ -380,6 +412,8 @@ def restore_concrete(p, m):
     kind, name = p['ctx'], p['name']
     ctx = get_ctx(kind)
     fn = entry_callable(ctx, name)
+    # fp has no precision of its own: what is watched (and set before the call) is the global mp context's precision
+    sctx = get_ctx('mp') if kind == 'fp' else ctx
     short = name.split('.')[-1]
     precs = []
     if m and 'P0' in m and 1 <= m['P0'] <= 2000:
@@ -390,16 +424,16 @@ def restore_concrete(p, m):
     tried = 0
 
     def check(P, what):
-        got = (ctx.prec, ctx.dps)
+        got = (sctx.prec, sctx.dps)
         want = (P, prec_to_dps(P))
         if got != want:
-            ctx.prec = 53
+            sctx.prec = 53
             return False, 'entered %s with (prec, dps) = %r, left with %r after: %s' % (name, want, got, what)
         return None
     if mode in ('with', 'decorated', 'reentrant'):
         for P in precs:
             for fault in (False, True):
-                ctx.prec = P
+                sctx.prec = P
                 try:
                     if mode == 'reentrant':
                         m_ = fn(7)
@@ -426,7 +460,7 @@ def restore_concrete(p, m):
                 r = check(P, '%s(77) as %s%s' % (name, mode, ' with a raising body' if fault else ''))
                 if r:
                     return r
-        ctx.prec = 53
+        sctx.prec = 53
         return None, 'UNCONFIRMED abstract alarm for %s: %d dynamic probes restored the precision' % (name, tried)
     glob = {}
     exec('from mpmath import *', glob)
@@ -453,12 +487,12 @@ def restore_concrete(p, m):
         except SyntaxError:
             continue
         if is_call and time.time() < t_end:
-            saved = ctx.prec
+            saved = sctx.prec
             for P in precs:
                 if time.time() > t_end:
                     break
                 # (a) plain run
-                ctx.prec = P
+                sctx.prec = P
                 ncalls = 0
                 try:
                     ncalls = _exec_with_fault(code, dict(glob), -1)
@@ -470,7 +504,7 @@ def restore_concrete(p, m):
                     return r
                 # (b) user callbacks raise
                 if 'lambda' in src:
-                    ctx.prec = P
+                    sctx.prec = P
                     try:
                         exec(compile(_poison_lambdas(src), '<doc example>', 'exec'), dict(glob))
                     except BaseException:
@@ -484,7 +518,7 @@ def restore_concrete(p, m):
                 for k in ks:
                     if k > max(ncalls, 1) or time.time() > t_end:
                         break
-                    ctx.prec = P
+                    sctx.prec = P
                     try:
                         _exec_with_fault(code, dict(glob), k)
                     except BaseException:
@@ -493,12 +527,12 @@ def restore_concrete(p, m):
                     r = check(P, src + '   [fault injected at internal call #%d]' % k)
                     if r:
                         return r
-            ctx.prec = saved
+            sctx.prec = saved
         try:
             exec(code, glob)
         except BaseException:
             pass
-    ctx.prec = 53
+    sctx.prec = 53
     return None, 'UNCONFIRMED abstract alarm for %s: %d dynamic probes (docstring examples at non-dps-image precisions, plain / failing callbacks / injected internal faults) all restored the precision' % (name, tried)
 
 
